@@ -1,5 +1,6 @@
 (* Correspondence check for C16: the harness builds a real stack of PoolDecorator / Logger /
-   Standardiser / Buffer over a recording pool, runs a history of reads, writes and changes of the
+   Standardiser / Buffer over a recording pool (Standardiser and Buffer are opaque levels: what they
+   did to demand is observed through probes and handed to the model as scripts), runs a history of reads, writes and changes of the
    underlying pool, and records what happened (construction outcome and warnings, values read,
    the ordered effects of every write: log records with their args mapping and the pool write, and
    the pool's state after every operation).  The model must produce the same. *)
@@ -32,6 +33,9 @@ Definition effect_eqb (a b : effect) : bool :=
   | _, _ => false
   end.
 
+(* arrivals are ghost events of the model (not observable from outside) *)
+Definition visible (e : effect) : bool := match e with Arrive _ _ => false | _ => true end.
+
 Fixpoint all2 {A} (f : A -> A -> bool) (a b : list A) : bool :=
   match a, b with
   | [], [] => true
@@ -42,7 +46,7 @@ Fixpoint all2 {A} (f : A -> A -> bool) (a b : list A) : bool :=
 Definition obs_eqb (a b : obs) : bool :=
   match a, b with
   | ORead d s u x, ORead d' s' u' x' => Qeqb d d' && Qeqb s s' && Qeqb u u' && Qeqb x x'
-  | OWrite e, OWrite e' => all2 effect_eqb e e'
+  | OWrite e, OWrite e' => all2 effect_eqb (filter visible e) e'
   | ONone, ONone => true
   | _, _ => false
   end.
@@ -55,9 +59,10 @@ Definition cerr_eqb (a b : cerr) : bool :=
 
 Definition check (c : case) : bool :=
   match build (k_specs c) (k_pool c) with
-  | (inl e, w) =>
+  | (BStuck, _) => false
+  | (BErr e, w) =>
       match k_built c with Some e' => cerr_eqb e e' && Nat.eqb w (k_warn c) | None => false end
-  | (inr st, w) =>
+  | (BStack st, w) =>
       match k_built c with
       | Some _ => false
       | None =>
